@@ -111,6 +111,53 @@ fn run_template(sc: &J) -> J {
     }
 }
 
+/// exhaustive sink-fault sweep of one template: fail the k-th write for every k
+fn run_sinkfault(sc: &J) -> J {
+    let src = sc.get("template").and_then(|t| t.as_str()).unwrap_or("").to_owned();
+    let parser = match build_parser(sc) {
+        Ok(p) => p,
+        Err(e) => return json!({"outcome": "err", "stage": "build", "error": e.to_string()}),
+    };
+    let tmpl = match parser.parse(&src) {
+        Ok(t) => t,
+        Err(e) => return json!({"outcome": "err", "stage": "parse", "error": e.to_string()}),
+    };
+    let g = globals(sc);
+    let mut free = FailingSink { fail_at: 0, calls: 0, accepted: Vec::new(), calls_after_failure: 0, failed: false };
+    let r0 = catch_unwind(AssertUnwindSafe(|| tmpl.render_to(&mut free, &g)));
+    let full = free.accepted.clone();
+    let w = free.calls;
+    match r0 {
+        Ok(Ok(())) => {}
+        Ok(Err(e)) => return json!({"outcome": "err", "stage": "render", "error": e.to_string()}),
+        Err(p) => return json!({"outcome": "violation", "what": "panic without fault", "panic": panic_msg(p)}),
+    }
+    let buffered = catch_unwind(AssertUnwindSafe(|| tmpl.render(&g)));
+    if let Ok(Ok(s)) = &buffered {
+        if s.as_bytes() != full.as_slice() {
+            return json!({"outcome": "violation", "what": "streamed bytes differ from buffered render", "streamed": String::from_utf8_lossy(&full), "buffered": s});
+        }
+    }
+    for k in 1..=w {
+        let mut sink = FailingSink { fail_at: k, calls: 0, accepted: Vec::new(), calls_after_failure: 0, failed: false };
+        let r = catch_unwind(AssertUnwindSafe(|| tmpl.render_to(&mut sink, &g)));
+        let acc = String::from_utf8_lossy(&sink.accepted).into_owned();
+        match r {
+            Err(p) => return json!({"outcome": "violation", "what": "panic", "k": k, "panic": panic_msg(p)}),
+            Ok(Ok(())) => return json!({"outcome": "violation", "what": "Ok returned although a write failed", "k": k, "accepted": acc}),
+            Ok(Err(_)) => {
+                if sink.calls_after_failure > 0 {
+                    return json!({"outcome": "violation", "what": "write after failure", "k": k, "calls_after_failure": sink.calls_after_failure, "accepted": acc});
+                }
+                if !full.starts_with(&sink.accepted) {
+                    return json!({"outcome": "violation", "what": "accepted bytes are not a prefix of the fault-free output", "k": k, "accepted": acc, "full": String::from_utf8_lossy(&full)});
+                }
+            }
+        }
+    }
+    json!({"outcome": "ok", "writes": w, "output": String::from_utf8_lossy(&full)})
+}
+
 fn panic_msg(p: Box<dyn std::any::Any + Send>) -> String {
     if let Some(s) = p.downcast_ref::<&str>() {
         (*s).to_owned()
@@ -143,6 +190,10 @@ fn main() {
         let kind = sc.get("kind").and_then(|k| k.as_str()).unwrap_or("template").to_owned();
         let res = match kind.as_str() {
             "template" => run_template(&sc),
+            "sinkfault" => match catch_unwind(AssertUnwindSafe(|| run_sinkfault(&sc))) {
+                Ok(v) => v,
+                Err(p) => json!({"outcome": "violation", "what": "panic", "panic": panic_msg(p)}),
+            },
             other => match catch_unwind(AssertUnwindSafe(|| api::run(other, &sc))) {
                 Ok(v) => v,
                 Err(p) => json!({"outcome": "panic", "panic": panic_msg(p)}),
